@@ -405,6 +405,9 @@ func Describe(c Cluster) string {
 			sb.WriteString(" ")
 		}
 		fmt.Fprintf(&sb, "%s:gpu%d,cpu%d,pods%d", n.Name, n.Gpus, n.Cpu, n.Pods)
+		if n.GpuMem > 0 {
+			fmt.Fprintf(&sb, ",gpumem%d", n.GpuMem)
+		}
 	}
 	sb.WriteString("] queues[")
 	for i, q := range c.Queues {
